@@ -38,7 +38,10 @@ def run(ctx):
     roots += F.find_fns('ReconnectOptions::normalize')
     roots += [v for v in F.fns_in('src/alias.rs') if not v.f.get('parent')]
     roots += [ctx.fn('Encoder::encode'), ctx.fn('Encoder::reset'), ctx.fn('Decoder::decode_bytes')]
-    R = [v for v in F.reachable_from(roots) if not v.file.endswith('logging.rs') and v.f['crate'] == 'gneiss_mqtt']
+    # both drivers' loops, the websocket adapter and the synchronous result plumbing
+    drv = [v for v in F.all_fns() if re.search(r'ClientRuntimeState::process_\w+(::\{closure#0\})?$|::client_event_loop(::\{closure#0\})?$|::conditional_w\w+(::\{closure#0\})?$|ws_stream::|SyncResult(Sender|Receiver)::', norm(v.path))]
+    roots += drv
+    R = [v for v in F.reachable_from(roots) if not v.file.endswith('logging.rs') and v.f['crate'] == 'gneiss_mqtt' and '/testing/' not in v.file and not v.file.endswith('longtests.rs')]
     tot = auto = tab = 0
     deferred = []
     used_inv = set()
@@ -66,8 +69,9 @@ def run(ctx):
             ctx.ob(inv is not None, '%s in %s — %s' % (s.what[:70], short(v.path), ('invariant ' + inv) if inv else 'no guard idiom, no dispatch agreement, not in the reviewed table'),
                    'panic|' + s.key(), loc=s.loc(), detail=None if inv else 'guards: ' + ' ; '.join(guard_strs(v, s.bb)))
     ctx.note('panic inventory: %d sites, %d discharged automatically, %d by reviewed invariants %s, %d decided by R-C11-2/7' % (tot, auto, tab, sorted(used_inv), len(deferred)))
-    ctx.floor(tot, 180, 'panic-capable sites in scope')
-    ctx.floor(len(R), 330, 'bodies in scope of the panic inventory')
+    if ctx.config == 'all':
+        ctx.floor(tot, 200, 'panic-capable sites in scope')
+        ctx.floor(len(R), 350, 'bodies in scope of the panic inventory')
 
     # ------------------------------------------------------------ R-C11-2
     ctx.rule('R-C11-2', 'T6 + T1', 'a container asserted empty at CONNACK receives no insertion that can execute while pending CONNACK (other than of packet kinds that cannot be serviced then), and is emptied at connection close')
@@ -75,9 +79,12 @@ def run(ctx):
     closed = ctx.fn('ProtocolState::handle_network_event_connection_closed')
     inc = ctx.fn('ProtocolState::handle_network_event_incoming_data')
     hp_calls = inc.calls('ProtocolState::handle_packet')
-    pre_flush_guard = bool(hp_calls) and all(guarded_any(inc, c.bb, [r'^!self\.pending_write_completion$', r'^VecDeque::is_empty\(self\.pending_write_completion_operations\)$']) or
-                                             (guarded_any(inc, c.bb, [r'^!\(self\.state == ProtocolStateType::PendingConnack\{\}\)$', r'^!self\.pending_write_completion$', r'^!ProtocolState::is_connect_flushed'])
-                                              and False) for c in hp_calls)
+    # accepted shape: while PendingConnack, packets are handled only once no write is pending (which implies
+    # the write-completion list is empty), and the opposite case is an explicit error exit
+    FL = [r'^!\(self\.state == ProtocolStateType::PendingConnack\{\}\)$', r'^!self\.pending_write_completion$', r'^VecDeque::is_empty\(self\.pending_write_completion_operations\)$']
+    pos = prims.edge_nodes_matching(inc, [r'^self\.pending_write_completion$', r'^!VecDeque::is_empty\(self\.pending_write_completion_operations\)$'])
+    pre_flush_guard = bool(hp_calls) and all(guarded_any(inc, c.bb, FL) for c in hp_calls) and bool(pos) and \
+        all(not (set(c.bb for c in hp_calls) & inc.reach([en])) for en in pos)
     connect_queue_guard = bool(hp_calls) and all(guarded_any(inc, c.bb, [r'^!\(self\.state == ProtocolStateType::PendingConnack\{\}\)$', r'^!ProtocolState::is_connect_in_queue\(self\)$']) for c in hp_calls)
     ctx.ob(connect_queue_guard, 'incoming data is handled while PendingConnack only after the CONNECT left the high-priority queue', 'connect-in-queue-guard', loc=inc.loc())
     nas = 0
@@ -271,6 +278,21 @@ def run(ctx):
                 okw = any(re.search(r'^\(.*\.1 == 0\)$|property_length == 0', x) for x in g)
                 ctx.ob(okw, '%s writer asserts the remaining length only under property_length == 0' % pk, 'ackassert|%s|%s' % (pk, 'succ' if any('Success' in x and not x.startswith('!') for x in g) else 'fail'), loc=s.loc())
     ctx.floor(nl, 4, 'ack length functions')
+
+    # ------------------------------------------------------------ R-C11-8
+    ctx.rule('R-C11-8', 'T2 invariant maintenance', 'DRV: a driver reports the Connected state only after storing the transport stream the connected loop takes')
+    npc = 0
+    for v in F.all_fns():
+        if re.search(r'ClientRuntimeState::process_connecting(::\{closure#0\})?$', norm(v.path)) and (not v.f.get('parent') or v.f.get('coroutine')):
+            if v.f.get('parent') is None and any(F.fns[k].get('parent') == v.path and F.fns[k].get('coroutine') for k in F.fns):
+                continue
+            npc += 1
+            oks = [b for b, e in prims.ret_variants(v) if 'ClientImplState::Connected{}' in show(e)]
+            sets = [i for (i, s_, pe, rve) in v.field_writes() if show(pe) == 'self.stream' and show(rve).startswith('Option::Some{')]
+            ok = bool(oks) and bool(sets) and all(any(i == b or v.dominates(i, b) for i in sets) for b in oks)
+            ctx.ob(ok, '%s returns Connected only after self.stream := Some(stream)' % short(v.path, 3), 'DRV|stream|' + short(v.path, 4), loc=v.loc())
+    if ctx.config == 'all':
+        ctx.floor(npc, 2, 'process_connecting bodies')
 
     # ------------------------------------------------------------ R-C11-7
     ctx.rule('R-C11-7', 'T9 value flow', 'time arithmetic whose duration operand comes from user configuration (ack timeout, connect timeout, reconnect periods) must be a checked/saturating form or provably bounded')
